@@ -55,12 +55,17 @@ CLAIMS = {
         technique="Lean 4 theorems over hand model with regenerated leaves; lock-step correspondence; history oracle on real stacks",
         design="§8 C10"),
     'C07': dict(
-        text="Proof (Lean 4), J1939-21: the table invariant WF (unique keys, every record has a deadline, a record sending in a CTS window "
-             "knows its wait-on packet) holds initially and is preserved by send_pgn, by EVERY received frame (any identifier, any data, also "
-             "when the handler raises) and by the background pass; from a WF state the pass never raises, the wake-up it asks for is strictly in "
-             "the future (no busy spin) and no record whose deadline has passed is left (released or progressed and re-armed); all reflected "
-             "timeouts <= 1.25 s.  Partial: J1939-22 (FD) is covered by correspondence/oracle only until Dll22 theorems exist; timers still "
-             "firing on time is C12's theorem composed in the oracle, not yet in Lean.",
+        text="Proof (Lean 4), BOTH data link layers: a table invariant WF holds initially and is preserved by send_pgn, by EVERY received "
+             "frame (any identifier, any data, also when the handler raises) and by the background pass; from a WF state the pass never "
+             "raises and the wake-up it asks for is strictly in the future (no busy spin); by induction over ANY history of sends, frames "
+             "and passes at any positive times the background thread never dies and never spins (c07_22_never_raises_never_spins and the "
+             "J1939-21 analogue).  J1939-21: WF = unique keys, every record has a deadline, a record sending in a CTS window knows its "
+             "wait-on packet; additionally no record whose deadline has passed is left by the pass (released or progressed and re-armed); "
+             "all reflected timeouts <= 1.25 s.  J1939-22: WF additionally bounds session numbers by their pools, makes the stored chunks "
+             "cover the segment count, keeps the next segment >= -1 (a hostile CTS with segment 0 makes Python index from the end — "
+             "modelled), keeps every multi-PG buffer within one frame and both pools at their size, which is exactly what rules out "
+             "KeyError / IndexError in the pass.  Partial: for J1939-22 'no overdue record is left' is not a theorem (correspondence and "
+             "oracle); timers still firing on time is C12's theorem composed in the oracle, not in Lean.",
         note="Induction over the key snapshot of both loops and over the send-window loop. Proved for the code as repaired by fix D1 "
              "(without it the no-spin theorem is false: late CTS). Tie: lock-step correspondence on hostile scripts with table dumps after "
              "every frame; oracle: real ECU under 1..60 alphabet frames incl. sessions to an address nobody owns.",
